@@ -103,7 +103,8 @@ func vsBatchEquation(es []vEntry, rnd []byte, variant int, ctx string) bool {
 var vBatchSizesQuick = [...]int{0, 1, 2, 3, 4, 5, 6, 8, 9, 68, 70, 131}
 var vBatchSizesThorough = [...]int{0, 1, 2, 3, 4, 5, 6, 7, 8, 9, 13, 63, 64, 65, 67, 68, 69, 127, 128, 129, 130, 131}
 
-// malformed-entry kinds: 0 none, 1 key of 31 bytes, 2 signature of 63 bytes, 3 signature of 65 bytes, 4 nil signature, 5 nil key, 6 digest of 63 bytes (ph)
+// malformed-entry kinds: 0 none, 1 key of 31 bytes, 2 signature of 63 bytes, 3 signature of 65 bytes, 4 nil signature, 5 nil key,
+// 6 key of 33 bytes, 7 key of 64 bytes, 8 digest of 63 bytes (ph)
 // vReplicate > 0: entries 0..vReplicate-1 are one and the same symbolic entry (the same slices), which keeps
 // multi-chunk batches tractable: the first chunks collapse by hash-consing and syntactic path pruning while
 // the entries of the last chunk / remainder stay independent
@@ -131,6 +132,10 @@ func vBatchEntries(n, badPos, badKind, variant int) []vEntry {
 			case 5:
 				isNilKey = true
 			case 6:
+				kl = 33
+			case 7:
+				kl = 64
+			case 8:
 				ml = 63
 			}
 		}
@@ -262,16 +267,16 @@ func vBatchCase(variant int) {
 	} else {
 		n = vBatchSizesThorough[vCase(0, len(vBatchSizesThorough)-1)]
 	}
-	vNote("batch lengths: quick {0,1,2,3,4,5,6,8,9} fully symbolic plus {68,70,131} with the first 64 resp. 128 entries being one replicated symbolic entry (second/third chunk and remainder independent); thorough adds {7,13,63,64,65,67,68,69,127..131} fully symbolic; at most one malformed entry (6 kinds) at first/middle/last position; all entry bytes symbolic; messages opaque")
+	vNote("batch lengths: quick {0,1,2,3,4,5,6,8,9} fully symbolic plus {68,70,131} with the first 64 resp. 128 entries being one replicated symbolic entry (second/third chunk and remainder independent); thorough adds {7,13,63,64,65,67,68,69,127..131} fully symbolic; at most one malformed entry (8 kinds: short/long/nil key, short/long/nil signature, short digest) at first/middle/last position; all entry bytes symbolic; messages opaque")
 	vReplicate = 0
 	if vTier() == 0 && n > 9 {
 		vReplicate = (n / 64) * 64
 	}
 	badKind := 0
 	badPos := -1
-	maxKind := 5
+	maxKind := 7
 	if variant == 2 {
-		maxKind = 6
+		maxKind = 8
 	}
 	if n > 9 && vTier() == 0 {
 		// multi-chunk batches in the quick tier: well-formed, or a truncated signature at the last position
